@@ -12,7 +12,9 @@ CONSTANT Full      \* TRUE: all pairs; FALSE: pairs of read-write variables only
 VARIABLE d
 
 SlotsSmall == {"0x00", "0x05"}
-SlotsBig   == {"0x0100000000000000000000000000000000", "0xffffffffffffffffffffffffffffffffffffffffffffffffffffffffffffff10"}
+SlotsBig   == {"0x0100000000000000000000000000000000", "0xffffffffffffffffffffffffffffffffffffffffffffffffffffffffffffff10",
+               \* a slot named by a short string, left-aligned: bytes32("balances")
+               "0x62616c616e636573000000000000000000000000000000000000000000000000"}
 AllSlots   == SlotsSmall \cup SlotsBig
 Access     == {"r", "w", "rw"}
 KeyKinds   == {"addr", "word"}
@@ -21,20 +23,22 @@ Splits     == {<<<<0, 128>>, <<128, 128>>>>,
                <<<<0, 64>>, <<64, 64>>, <<128, 64>>, <<192, 64>>>>,
                <<<<0, 160>>, <<160, 8>>, <<168, 8>>, <<176, 32>>, <<208, 16>>, <<224, 32>>>>}
 
-Var(kind, slot, keys, valAddr, fields, acc) ==
-    [kind |-> kind, slot |-> slot, width |-> 0, keys |-> keys, val_addr |-> valAddr, fields |-> fields, access |-> acc]
+Var(kind, slot, keys, valAddr, fields, acc, wmul, topw) ==
+    [kind |-> kind, slot |-> slot, width |-> 0, keys |-> keys, val_addr |-> valAddr, fields |-> fields, access |-> acc,
+     wmul |-> wmul, top_w |-> topw]
 
 Shapes ==
-    {[kind |-> "word", keys |-> << >>, val_addr |-> FALSE, fields |-> << >>],
-     [kind |-> "addr", keys |-> << >>, val_addr |-> FALSE, fields |-> << >>]}
-    \cup {[kind |-> "map", keys |-> <<k>>, val_addr |-> va, fields |-> << >>] : k \in KeyKinds, va \in BOOLEAN}
-    \cup {[kind |-> "map", keys |-> <<k1, k2>>, val_addr |-> va, fields |-> << >>] : k1 \in KeyKinds, k2 \in KeyKinds, va \in BOOLEAN}
-    \cup {[kind |-> "map", keys |-> <<"addr", "word", "addr">>, val_addr |-> FALSE, fields |-> << >>],
-          [kind |-> "map", keys |-> <<"word", "addr", "word", "addr">>, val_addr |-> TRUE, fields |-> << >>]}
-    \cup {[kind |-> "dyn", keys |-> << >>, val_addr |-> va, fields |-> << >>] : va \in BOOLEAN}
-    \cup {[kind |-> "packed", keys |-> << >>, val_addr |-> FALSE, fields |-> f] : f \in Splits}
+    {[kind |-> "word", keys |-> << >>, val_addr |-> FALSE, fields |-> << >>, wmul |-> FALSE, top_w |-> FALSE],
+     [kind |-> "addr", keys |-> << >>, val_addr |-> FALSE, fields |-> << >>, wmul |-> FALSE, top_w |-> FALSE]}
+    \cup {[kind |-> "map", keys |-> <<k>>, val_addr |-> va, fields |-> << >>, wmul |-> FALSE, top_w |-> FALSE] : k \in KeyKinds, va \in BOOLEAN}
+    \cup {[kind |-> "map", keys |-> <<k1, k2>>, val_addr |-> va, fields |-> << >>, wmul |-> FALSE, top_w |-> FALSE] : k1 \in KeyKinds, k2 \in KeyKinds, va \in BOOLEAN}
+    \cup {[kind |-> "map", keys |-> <<"addr", "word", "addr">>, val_addr |-> FALSE, fields |-> << >>, wmul |-> FALSE, top_w |-> FALSE],
+          [kind |-> "map", keys |-> <<"word", "addr", "word", "addr">>, val_addr |-> TRUE, fields |-> << >>, wmul |-> FALSE, top_w |-> FALSE]}
+    \cup {[kind |-> "dyn", keys |-> << >>, val_addr |-> va, fields |-> << >>, wmul |-> FALSE, top_w |-> FALSE] : va \in BOOLEAN}
+    \cup {[kind |-> "packed", keys |-> << >>, val_addr |-> FALSE, fields |-> f, wmul |-> m, top_w |-> t] :
+              f \in Splits, m \in BOOLEAN, t \in BOOLEAN}
 
-Vars(slots, accs) == {Var(s.kind, sl, s.keys, s.val_addr, s.fields, a) : s \in Shapes, sl \in slots, a \in accs}
+Vars(slots, accs) == {Var(s.kind, sl, s.keys, s.val_addr, s.fields, a, s.wmul, s.top_w) : s \in Shapes, sl \in slots, a \in accs}
 
 Singles == {<<v>> : v \in Vars(AllSlots, Access)}
 Pairs == IF Full
